@@ -195,6 +195,8 @@ impl<'a, C> ParseState<'a, C> {
         self.env = ParseState::_build_env(input);
         self.len_env = self.env.len();
         self.head = head;
+        // 清空「中间解析结果」：避免上一次解析残留的条目（如预算值、真值）混入本次解析
+        self.mid_result = MidParseResult::new();
     }
 
     /// 重置状态
